@@ -75,4 +75,33 @@ Section AggRange.
     - destruct (o_aggs prev !! (sid, 3)) as [[?|? ? ?|pt pi]|]; discriminate.
     - discriminate.
   Qed.
+
+  (* a timestamped aggregate the new outcome holds for a (stream, median) pair is either the previous outcome's (kept because
+     this round's observed-at time is not later, or because aggregation was impossible) or fresh: then its value and its
+     observed-at time each lie between two values / times that correct observers of this round reported *)
+  Theorem outcome_tsv_median_in_honest_range cf seq prev (taos : list (option observation * bool)) next sid t d :
+    1 < seq -> outcome_step h cf seq prev (map fst taos) = Ok next ->
+    o_aggs next !! (sid, 1) = Some (STsv t (SDec d)) ->
+    honest_tsv (accepted_vals taos sid) ->
+    (fpres (accepted_vals taos sid) < hpres (accepted_vals taos sid))%nat ->
+    o_aggs prev !! (sid, 1) = Some (STsv t (SDec d)) \/
+    exists tl th dl dh t1 d1 t2 d2,
+      In (Some (STsv tl d1), true) (accepted_vals taos sid) /\ In (Some (STsv th d2), true) (accepted_vals taos sid) /\ tl <= t <= th /\
+      In (Some (STsv t1 (SDec dl)), true) (accepted_vals taos sid) /\ In (Some (STsv t2 (SDec dh)), true) (accepted_vals taos sid) /\
+      dle dl d /\ dle d dh.
+  Proof.
+    intros Hseq H Hl Hh Hmaj. pose proof (step_aggregate cf seq prev taos next (sid, 1) _ Hseq H Hl) as Hav.
+    unfold agg_value, agg_fun in Hav. cbn [Z.eqb Pos.eqb] in Hav. rewrite <- accepted_vals_fst in Hav.
+    destruct (median_agg (map fst (accepted_vals taos sid)) (c_f cf)) as [r| |] eqn:Em.
+    - destruct (tsv_median_in_honest_range _ _ _ Hh Hmaj Em) as (t' & d' & tl & th & dl & dh & t1 & d1 & t2 & d2 & -> & H1 & H2 & H3 & H4 & H5 & H6 & H7).
+      destruct (o_aggs prev !! (sid, 1)) as [[?|? ? ?|pt pi]|] eqn:Ep.
+      + inversion Hav; subst. right. exists tl, th, dl, dh, t1, d1, t2, d2. auto 10.
+      + inversion Hav; subst. right. exists tl, th, dl, dh, t1, d1, t2, d2. auto 10.
+      + destruct (t' <=? pt).
+        * inversion Hav; subst. left. reflexivity.
+        * inversion Hav; subst. right. exists tl, th, dl, dh, t1, d1, t2, d2. auto 10.
+      + inversion Hav; subst. right. exists tl, th, dl, dh, t1, d1, t2, d2. auto 10.
+    - destruct (o_aggs prev !! (sid, 1)) as [[?|? ? ?|pt pi]|] eqn:Ep; try discriminate. inversion Hav; subst. left. reflexivity.
+    - discriminate.
+  Qed.
 End AggRange.
